@@ -52,6 +52,7 @@ type variant struct {
 	coop      bool
 	tv1       bool
 	joinAfter int // B is created after A's joinAfter-th round
+	slowBegin bool // the application's processing time lies between the poll and Begin (a rebalance lands after the poll, before the transaction is open)
 }
 
 type endRes struct {
@@ -153,6 +154,9 @@ func iterate(st *state, name string, s *kgo.GroupTransactSession, step func(stri
 	if len(recs) == 0 {
 		return 0
 	}
+	if st.v.slowBegin {
+		time.Sleep(workTime)
+	}
 	step("begin")
 	if err := s.Begin(); err != nil {
 		st.mu.Lock()
@@ -176,7 +180,9 @@ func iterate(st *state, name string, s *kgo.GroupTransactSession, step func(stri
 		})
 	}
 	step("flush")
-	time.Sleep(workTime) // the application's processing time; frames and timers keep flowing
+	if !st.v.slowBegin {
+		time.Sleep(workTime) // the application's processing time; frames and timers keep flowing
+	}
 	fctx, fcancel := context.WithTimeout(context.Background(), 60*time.Second)
 	ferr := s.Client().Flush(fctx)
 	fcancel()
@@ -490,6 +496,10 @@ var plans = []nrun.Plan{
 	{Scenario: scenario(variant{name: "ETL-coop", coop: true, joinAfter: 2}), QuickBudget: 1, ThoroughBudget: 2, Weight: 1, Allow: allowByTier()},
 	{Scenario: scenario(variant{name: "ETL-eager", joinAfter: 1}), QuickBudget: 1, ThoroughBudget: 2, Weight: 1, Allow: allowByTier()},
 	{Scenario: scenario(variant{name: "ETL-coop-tv1", coop: true, tv1: true, joinAfter: 2}), QuickBudget: 1, ThoroughBudget: 2, Weight: 1, Allow: allowByTier()},
+	// added after an independent seeded change was missed (Begin clearing the
+	// revoked/lost flag): the rebalance must land between the poll and Begin
+	{Scenario: scenario(variant{name: "ETL-coop-slowbegin", coop: true, joinAfter: 2, slowBegin: true}), QuickBudget: 1, ThoroughBudget: 2, Weight: 1, Allow: allowByTier()},
+	{Scenario: scenario(variant{name: "ETL-eager-slowbegin", joinAfter: 1, slowBegin: true}), QuickBudget: 1, ThoroughBudget: 2, Weight: 1, Allow: allowByTier()},
 }
 
 // allowByTier: quick = k=1 restricted to End windows; thorough = full k=1,
